@@ -223,9 +223,15 @@ func (c *chainRun) randomOps(st *state.State, blockNo int) []*op {
 				ops = append(ops, c.opTransfer(8, e, big.NewInt(1+int64(c.rng.Intn(1000)))))
 			}
 		default: // MaxBlockProposers
-			cur := c.u.mbp(st)
+			cur := c.u.mbpRaw(st)
 			m := uint64(1 + c.rng.Intn(6))
-			if m != cur && (m >= 2 || c.rng.Intn(3) == 0) {
+			switch c.rng.Intn(8) {
+			case 0:
+				m = 0 // unset: the limit falls back to 101
+			case 1:
+				m = 200 // above the cap
+			}
+			if m != cur && (m != 1 || c.rng.Intn(3) == 0) {
 				from := 0
 				if c.rng.Intn(5) == 0 {
 					from = 2
@@ -349,7 +355,8 @@ func oneChain(w *trace.Writer, st *chainStats, seen map[string]bool, seed int64,
 		if len(offs) > 0 {
 			st.OffsBlocks++
 		}
-		w.Emit(trace.Ev{"e": "Begin", "who": u.nodeName(&signer), "offs": offs, "props": u.propList(props), "num": num})
+		w.Emit(trace.Ev{"e": "Begin", "who": u.nodeName(&signer), "offs": offs, "props": u.propList(props), "num": num,
+			"score": blk.Header().TotalScore() - c.parent.Header().TotalScore()})
 		// ---- the transactions with their outcome
 		receipts, err := net.God.Repo.GetBlockReceipts(blk.Header().ID())
 		must(err)
